@@ -73,3 +73,11 @@ claim("C08",
       "year_ce constants; no arithmetic, cast or index on these paths can trap (abstract interpretation). Value-level correctness of the n-th weekday and week bounds is not decided.",
       "Trusted: specs/tables/calendar_oracle.py; analysis/sym.py; analysis/abs*.py; specs/justifications.txt.",
       "DESIGN.md 5/C08")
+claim("C05",
+      "path-condition entailment at every Ambiguous construction site (finite set of orderings), match extraction, dominance/dispatch rule",
+      "NARROW claim. Decides one clause of C05 and the contract glue: wherever the TZif / TZ-rule lookups build MappedLocalTime::Ambiguous(a, b) the conditions on the "
+      "path entail a.ut_offset >= b.ut_offset, i.e. the two candidates are ordered earliest first; earliest()/latest()/single() project components 0 / 1 / Single only; "
+      "and_then/map keep the pair order; Cache::offset dispatches `local` false/true to the instant / wall-clock lookup. Which transition applies, gap/fold classification on "
+      "the exact second, the hemisphere/sign branches and rule-day arithmetic compare runtime quantities and are not decided by static analysis.",
+      "Trusted: analysis/sym.py path enumeration over MIR.",
+      "DESIGN.md 5/C05")
